@@ -10,6 +10,7 @@
 package c28
 
 import (
+	"sync/atomic"
 	"fmt"
 	"math/rand/v2"
 	"sort"
@@ -113,9 +114,53 @@ func build(r *rand.Rand, m *mval, permute, churn bool) Value {
 		}
 	}
 	if m.o.record {
-		return SuRecordFromObject(ob)
+		rec := SuRecordFromObject(ob)
+		if rb := rowBacked(r, rec); rb != nil {
+			return rb
+		}
+		return rec
 	}
 	return ob
+}
+
+var rowBackedMade atomic.Int64
+
+// rowBacked returns (half of the time, where possible) the same record the way a query delivers it: backed by a
+// stored row whose fields are unpacked on demand. Possible = no list part, string member names, no empty values
+// (an empty field of a row is not a member).
+func rowBacked(r *rand.Rand, rec *SuRecord) Value {
+	if r.IntN(2) == 0 || rec.ListSize() != 0 || rec.NamedSize() == 0 {
+		return nil
+	}
+	var fields []string
+	ok := true
+	it := rec.ToObject().Iter2(false, true)
+	for k, v := it(); k != nil; k, v = it() {
+		name, isStr := k.(SuStr)
+		if _, packable := v.(Packable); !isStr || !packable || v == EmptyStr || name == "" {
+			ok = false
+			break
+		}
+		if s, isS := v.ToStr(); isS && s == "" {
+			ok = false
+			break
+		}
+		fields = append(fields, string(name))
+	}
+	if !ok {
+		return nil
+	}
+	var res Value
+	p, _ := vk.Catch(func() {
+		hdr := NewHeader([][]string{fields}, fields)
+		stored := rec.ToRecord(&Thread{}, hdr)
+		res = SuRecordFromRow(Row{DbRec{Record: stored}}, hdr, "", nil)
+	})
+	if p != nil || res == nil {
+		return nil
+	}
+	rowBackedMade.Add(1)
+	return res
 }
 
 func toObject(v Value) *SuObject {
@@ -361,6 +406,29 @@ func makePool(r *rand.Rand, size int) []*item {
 			objs = append(objs, &mval{kind: kObj, o: o})
 		}
 	}
+	// field records: no list part, a few string-named members with non-empty values - the shape of a database row, so
+	// that build can also deliver them row-backed (fields unpacked on demand), next to equal in-memory records
+	fieldNames := []string{"a", "b", "name", "k2"}
+	for i := 0; i < size/8; i++ {
+		o := &mobj{record: true}
+		for _, fn := range fieldNames[:1+r.IntN(len(fieldNames))] {
+			v := scalar()
+			if v.kind == kStr && v.s == "" {
+				continue
+			}
+			o.keys = append(o.keys, &mval{kind: kStr, s: fn})
+			o.vals = append(o.vals, v)
+		}
+		if len(o.keys) == 0 {
+			continue
+		}
+		objs = append(objs, &mval{kind: kObj, o: o})
+		v2 := append([]*mval{}, o.vals...)
+		if nv := scalar(); !(nv.kind == kStr && nv.s == "") {
+			v2[r.IntN(len(v2))] = nv
+			objs = append(objs, &mval{kind: kObj, o: &mobj{record: true, keys: o.keys, vals: v2}})
+		}
+	}
 	for _, m := range objs {
 		add(m, build(r, m, false, false), "built")
 		add(m, build(r, m, true, false), "built-permuted")
@@ -385,6 +453,7 @@ func TestVerifC28(t *testing.T) {
 			"a case = one ordered pair (matrix entry), one triple (transitivity) or one member lookup; non-trivial = the two values are different items; distinct by (item, item)",
 		"scalar model order/equality is the harness's own (digit strings, bytes, civil tuples); record-vs-object equality is left open; math/strconv trusted")
 	defer rep.Finish()
+	defer func() { rep.Count("row_backed_records", int(rowBackedMade.Load())) }()
 	reported := map[string]bool{}
 	violate := func(class, key string, detail any) {
 		// "<law>/cascade-of-X" becomes class "C28/cascade-of-X" with the law in the key: one class per root cause
